@@ -37,13 +37,17 @@ static void on_hang(const HangInfo& hi) {
         if (hc.expect.load() > 0 && hc.max_delivered.load() + 1 > hc.delivered.load()) what = "value-never-delivered";
     }
     else if (bpush > 0 && cap >= 0 && inside < cap) what = kind;       // blocked below capacity on a non-empty queue
-    else if ((cls == 'Q' || cls == 'P') && hc.phase.load() == 1) what = "blocked-caller-not-released";   // abort() returned, a call that was blocked before it did not
+    else if ((cls == 'Q' || cls == 'P') && hc.phase.load() == 2) what = "blocked-caller-not-released";   // abort() returned, a call that was blocked before it did not
     else if (bpop > 0 || bpush > 0) {
         // blocked pops on an abstractly empty queue / pushes on a full one with nobody left to help: the harness itself
         // should have helped; report as a harness problem (exit 4 => inconclusive), not as a verdict about oneTBB
         if (cls == 'L' || cls == 'S' || cls == 'U' || cls == 'G') { R.inconclusive++; fprintf(stderr, "[c09] stall without a satisfiable wait (harness)\n%s\n", d.c_str()); R.finish_and_exit(4); }
     }
     if (cls == 'R' && what == "push-blocked-on-empty-queue") what = kind;
+    if ((cls == 'Q' || cls == 'P' || cls == 'R') && hc.phase.load() <= 1 && what == kind) {
+        // still waiting for the callers to block before the first abort(): nothing of the queue is being awaited
+        R.inconclusive++; fprintf(stderr, "[c09] stall while arming an abort scenario (harness)\n%s\n", d.c_str()); R.finish_and_exit(4);
+    }
     R.violation(cls_key(cls, what), d, hc.scen());
     R.finish_and_exit(3);
 }
@@ -55,7 +59,19 @@ int main(int argc, char** argv) {
     bool light = (R.variant == "tsan") || a.has("light");
     std::string mode = R.mode == "default" ? "mix" : R.mode;
     tbb::global_control gc(tbb::global_control::max_allowed_parallelism, 16);
+    bool wedgeable = a.num("wedgeable", 1) != 0;   // class P: 0 = only scenarios with fewer blocked pushers than capacity (cannot reach the known wedge)
     Rng top(mix(R.seed, 0xC09));
+    // The verification hooks compiled into libtbb must be live (the sleep registry and the abort scenarios depend on them). If a
+    // libtbb without hooks was loaded (e.g. the system library because the build directory vanished) nothing can be judged.
+    {
+        tbb::concurrent_bounded_queue<long> q0; q0.set_capacity(1); q0.push(1);
+        std::thread t0([&] { q0.push(2); });
+        double t_end = now_s() + 5.0;
+        while (hook_count(56) == 0 && now_s() < t_end) sched_yield();
+        bool live = hook_count(56) > 0 && hook_count(50) > 0;
+        long v; q0.pop(v); t0.join();
+        if (!live) { fprintf(stderr, "[c09] the loaded libtbb has no verification hooks (wrong library?)\n"); R.stat("no_hooks_in_libtbb"); R.write(); return 2; }
+    }
     WatchdogCfg wc;
     watchdog_start(wc, on_hang);
     install_observer();
@@ -63,13 +79,13 @@ int main(int argc, char** argv) {
     LinStats ls;
     for (long k = 0; k < cases; k++) {
         char cls;
-        if (mode == "mix") { static const char rot[] = "LLLLLLUGLLLSLLLQLLUG"; cls = rot[k % (sizeof rot - 1)]; }
+        if (mode == "mix") { static const char rot[] = "LLLLLLUGLLLSLLLQLLUGLLLLLUGLLLQLLLLLLLUG"; cls = rot[k % (sizeof rot - 1)]; }
         else cls = mode[0];
         Rng r(mix(top.next(), (uint64_t)k));
         switch (cls) {
         case 'L': case 'U': case 'G': { Plan p = gen_plan(r, cls, k / 3 + (long)(R.seed % 7)); run_case(E, p, r, ls); break; }
         case 'S': run_stress(E, r); break;
-        case 'Q': case 'R': case 'P': run_abort(E, r, cls); break;
+        case 'Q': case 'R': case 'P': run_abort(E, r, cls, wedgeable); break;
         case 'B': run_fault_B(E, r, k); break;
         default: fprintf(stderr, "unknown mode %s\n", mode.c_str()); return 2;
         }
